@@ -12,6 +12,7 @@ mod solverfuzz;
 mod ddfuzz;
 mod longarc;
 mod viz;
+mod widthfuzz;
 
 fn main() {
     let args: Vec<String> = std::env::args().collect();
@@ -31,6 +32,7 @@ fn main() {
         "longarc_fuzz" => longarc::fuzz(&rest),
         "dd_fuzz" => ddfuzz::fuzz(&rest),
         "viz_fuzz" => viz::fuzz(&rest),
+        "width_fuzz" => widthfuzz::fuzz(&rest),
         "solver_fuzz" => solverfuzz::fuzz(&rest),
         "cache_fuzz" => stores::cache_fuzz(&rest),
         "dominance_fuzz" => stores::dominance_fuzz(&rest),
